@@ -511,22 +511,26 @@ Section WithCfg.
   Definition as_ptr (v : nat) : M eptr :=
     d <- is_default v ;; if d then ret PNull else data v.
 
-  (* src/lib.rs: grow *)
+  (* src/lib.rs: grow -- statement by statement as in the source (EquivCap.grow_equiv proves the
+     regenerated AST evaluates to exactly this) *)
   Definition grow (v : nat) (capacity_ alignment_ : Z) : M unit :=
-    l0 <- len v ;;
-    (if release cfg then ret tt else if l0 <=? capacity_ then ret tt else panic) ;;;
+    (* debug_assert!(capacity >= self.len()) *)
+    (if release cfg then ret tt else l0 <- len v ;; if l0 <=? capacity_ then ret tt else panic) ;;;
     old_capacity <- capacity v ;;
-    dflt <- is_default v ;;
-    if (capacity_ =? old_capacity) && negb (dflt && (max_align cfg <? alignment_)) then ret tt else
+    (* if new == old && !(self.is_default() && alignment > max_align::<T>()) { return; } *)
+    early <- (if capacity_ =? old_capacity then
+                dflt <- is_default v ;;
+                ret (negb (if dflt then max_align cfg <? alignment_ else false))
+              else ret false) ;;
+    if early then ret tt else
     nl <- lift_opt (make_layout cfg capacity_ alignment_) ;;
     let '(nsize, nalign) := nl in
     l <- len v ;;
-    h <- vec_handle v ;;
-    nb <- match h with
-          | Sentinel => do_alloc nsize nalign
-          | _ => ol <- lift_opt (make_layout cfg old_capacity alignment_) ;;
-                 do_realloc h (fst ol) (snd ol) nsize
-          end ;;
+    dflt <- is_default v ;;
+    nb <- (if dflt then do_alloc nsize nalign
+           else ol <- lift_opt (make_layout cfg old_capacity alignment_) ;;
+                h <- vec_handle v ;;
+                do_realloc h (fst ol) (snd ol) nsize) ;;
     match nb with
     | None => fun s => (AllocAbort nsize nalign, s)
     | Some b =>
